@@ -5242,3 +5242,19 @@ T('C18', 'twin-intended-recipient-one-shared-call', PGP, _IR,
   "                recipient_fpr = intended_recipient.fingerprint\n            elif isinstance(intended_recipient, Fingerprint):\n                recipient_fpr = intended_recipient\n            else:\n                warnings.warn(\"Intended Recipient is not a PGPKey, ignoring\")\n                continue\n\n            sig._signature.subpackets.addnew('IntendedRecipient', hashed=True, version=4,\n                                             intended_recipient=recipient_fpr)\n")
 M('C18', 'intended-recipient-shared-call-one-arm-derived', PGP, _IR,
   "                recipient_fpr = (intended_recipient.parent or intended_recipient).fingerprint\n            elif isinstance(intended_recipient, Fingerprint):\n                recipient_fpr = intended_recipient\n            else:\n                warnings.warn(\"Intended Recipient is not a PGPKey, ignoring\")\n                continue\n\n            sig._signature.subpackets.addnew('IntendedRecipient', hashed=True, version=4,\n                                             intended_recipient=recipient_fpr)\n", 'C18.7')
+# wave 6: literal text codec on the signed-data path, rejection on re-encoded sizes, verdict without own hash
+M('C02', 'literal-contents-utf8-sig', PK, "            return self._contents.decode('utf-8')", "            return self._contents.decode('utf-8-sig')", 'C02.8')
+M('C02', 'literal-contents-utf8-ignore-errors-latin', PK, "            return self._contents.decode('utf-8')", "            return self._contents.decode('utf-16')", 'C02.8')
+T('C02', 'twin-literal-contents-codec-spelling', PK, "            return self._contents.decode('utf-8')", "            raw = self._contents\n            return raw.decode('UTF-8')")
+_UHLOOP = "        while plen - len(packet) < uhl:\n            sp = SignatureSP(packet)\n            self[sp.__class__.__name__] = sp\n"
+M('C05', 'parse-rejects-on-reencoded-area-size', FL, _UHLOOP, _UHLOOP + "\n        if sum(len(sp) for sp in self._hashed_sp.values()) != hl or sum(len(sp) for sp in self._unhashed_sp.values()) != uhl:\n            raise PGPError(\"Signature subpackets do not add up to the announced length of their area\")\n", 'C05.1')
+M('C05', 'parse-rejects-on-reserialised-capture-length', FL, "        self._hashed_raw = hashed_raw\n", "        self._hashed_raw = hashed_raw\n        if sum(len(s.__bytearray__()) for s in self._hashed_sp.values()) != hl:\n            raise PGPError(\"non-canonical hashed subpacket area\")\n", 'C05.1')
+T('C05', 'twin-parse-warns-on-reencoded-area-size', FL, _UHLOOP, _UHLOOP + "\n        if sum(len(sp) for sp in self._unhashed_sp.values()) != uhl:\n            warnings.warn(\"non-minimal subpacket length encoding\")\n")
+T('C05', 'twin-parse-rejects-on-received-length-only', FL, "        hl = self.bytes_to_int(packet[:2])\n        hashed_raw = packet[:2 + hl]", "        hl = self.bytes_to_int(packet[:2])\n        if hl > len(packet) - 2:\n            raise PGPError(\"hashed subpacket area runs past the end of the packet\")\n        hashed_raw = packet[:2 + hl]")
+_VER = "                    sigv.add_sigsubj(sig, self, subj, SecurityIssues.WrongSig if not verified else SecurityIssues.OK)\n"
+M('C05', 'verify-verdict-cache-by-signature-value', PGP, "                if issues and issues.causes_signature_verify_to_fail:\n                    sigv.add_sigsubj(sig, self, subj, issues)\n                else:\n",
+  "                if issues and issues.causes_signature_verify_to_fail:\n                    sigv.add_sigsubj(sig, self, subj, issues)\n                elif (id(subj), sig.signer, bytes(sig.__sig__)) in self._verdicts:\n                    sigv.add_sigsubj(sig, self, subj, self._verdicts[(id(subj), sig.signer, bytes(sig.__sig__))])\n                else:\n", 'C05.4',
+  more=[(PGP, _VER, "                    self._verdicts[(id(subj), sig.signer, bytes(sig.__sig__))] = SecurityIssues.WrongSig if not verified else SecurityIssues.OK\n" + _VER)])
+M('C05', 'verify-verdict-ok-without-hash-for-own-key', PGP, "                if issues and issues.causes_signature_verify_to_fail:\n                    sigv.add_sigsubj(sig, self, subj, issues)\n                else:\n",
+  "                if issues and issues.causes_signature_verify_to_fail:\n                    sigv.add_sigsubj(sig, self, subj, issues)\n                elif subj is self and sig.signer == self.fingerprint.keyid and self._self_verified:\n                    sigv.add_sigsubj(sig, self, subj, SecurityIssues.OK)\n                else:\n", 'C05.4')
+T('C05', 'twin-verify-hashdata-temp', PGP, "                    verified = self._key.verify(sig.hashdata(subj), sig.__sig__, getattr(hashes, sig.hash_algorithm.name)())", "                    tbs = sig.hashdata(subj)\n                    hash_object = getattr(hashes, sig.hash_algorithm.name)()\n                    verified = self._key.verify(tbs, sig.__sig__, hash_object)")
